@@ -115,6 +115,7 @@ theorem viaData_reads_port (p : Path) (hp : p ≠ portPath) : (viaData p).reads 
   split
   · simp [Src.reads, portPath]
   · simp [Src.reads, portPath]
+  · simp [Src.reads, portPath]
   · cases p with
     | nil => simp [viaLiteral, Src.reads, portPath]
     | cons h rest => exact viaLiteral_data_reads_port h rest hp
